@@ -25,7 +25,7 @@ def _c(v) -> Fraction:
 
 
 def p_const(v) -> Poly:
-    f = _c(v)
+    f = v if isinstance(v, Fraction) else _c(v)
     return {(): f} if f != 0 else {}
 
 
@@ -140,9 +140,18 @@ def to_poly(s, atom_map=None, _depth: int = 0) -> Optional[Poly]:
         a = to_poly(s[1], atom_map, _depth)
         return None if a is None else p_neg(a)
     if k == "div":
+        lg = _logistic_arg(s)
+        if lg is not None:
+            z = to_poly(("neg", lg), atom_map, _depth)
+            return None if z is None else _complement_call("$logistic", z)
         a, b = to_poly(s[1], atom_map, _depth), to_poly(s[2], atom_map, _depth)
         if a is None or b is None or not b:
             return None
+        if a and len(b) > 1 and set(a) == set(b):
+            # proportional polynomials cancel: (c*S)/S = c
+            ratios = {a[m] / b[m] for m in b}
+            if len(ratios) == 1:
+                return p_const(ratios.pop())
         inv = p_pow(b, Fraction(-1))
         return None if inv is None else p_mul(a, inv)
     if k == "pow":
@@ -162,6 +171,8 @@ def to_poly(s, atom_map=None, _depth: int = 0) -> Optional[Poly]:
             return p_pow(args[0], Fraction(1, 2))
         if name == "float" and len(args) == 1:
             return args[0]
+        if name in COMPLEMENT_FUNCS and len(args) == 1:
+            return _complement_call(name, args[0])
         # odd/even structure of a few functions is used by the symmetry rules through recognised shapes only
         return p_atom(("call", name) + tuple(freeze(a) for a in args))
     if k == "fold":
@@ -190,6 +201,34 @@ def to_poly(s, atom_map=None, _depth: int = 0) -> Optional[Poly]:
     if atom_map is not None:
         s = atom_map(s)
     return p_atom(s)
+
+
+# functions with f(z) + f(-z) = 1, known by a recognised shape (logistic) or by role (the Gaussian CDF)
+COMPLEMENT_FUNCS = {"$logistic", "NormalDist.cdf", "fn:phi_major"}
+
+
+def _logistic_arg(s):
+    """1 / (1 + exp(Z))  ->  Z   (either operand order of the sum)."""
+    if s[0] != "div" or s[1] != ("const", 1) and s[1] != ("const", 1.0):
+        return None
+    d = s[2]
+    if d is None or d[0] != "add":
+        return None
+    for one, ex in ((d[1], d[2]), (d[2], d[1])):
+        if one in (("const", 1), ("const", 1.0)) and ex is not None and ex[0] == "call" and ex[1] == "math.exp" and len(ex) == 3:
+            return ex[2]
+    return None
+
+
+def _complement_call(name: str, z: Poly) -> Poly:
+    """Canonical form of f(z) for f(z) + f(-z) = 1: the argument's leading coefficient is made positive."""
+    if not z:
+        return p_const(Fraction(1, 2))
+    lead = sorted(z.items(), key=repr)[0][1]
+    if lead < 0:
+        pos = p_atom(("call", name, freeze(p_neg(z))))
+        return p_add(p_const(1), pos, -1)
+    return p_atom(("call", name, freeze(z)))
 
 
 def p_equal(a: Optional[Poly], b: Optional[Poly]) -> bool:
@@ -223,6 +262,15 @@ def _show_atom(a) -> str:
             return "(" + show(dict(a[1]), 120) + ")"
         if a[0] == "call":
             return f"{a[1]}(" + ", ".join(show(dict(x), 80) for x in a[2:]) + ")"
+        if a[0] == "lenterm":
+            t = a[1]
+            if t == ("len", "IN.teams", ()):
+                return "len(teams)"
+            if t and t[0] == "len" and t[1] == "IN.team":
+                return f"len(teams[{t[2][0]}])"
+            return f"len{t}"
+        if a[0] == "fold":
+            return f"fold{a[1]}[{a[3]}](" + (show(dict(a[2]), 100) if a[2] is not None else "?") + ")"
         if a[0] == "rd":
             return f"{a[1].split('@')[0]}{list(a[2])}.{a[3]}"
     return repr(a)
